@@ -1,5 +1,6 @@
 import Nv.Proofs.C17
 import Nv.Proofs.C17Shard
+import Nv.Proofs.C17Lock
 import Nv.Proofs.C04Wide
 /-!
 C17 — property theorems for shard routing (`remap`) and the sharded containers.
@@ -79,9 +80,9 @@ theorem search_in_range (c : Cfg) (hc : Proved c) (n x : Nat) (h1 : 1 ≤ n) (h2
     searchIndex c n x < n := (partition_total c hc n x h1 h2 hx).1
 
 /-- `SimpleIndex` of an integer / HitGroup key is in range whatever the conversion to `uint64` is -/
-theorem simple_in_range (arm : KType → Nat → Option (BitVec 64)) (c : Cfg) (hc : Proved c) (n : Nat)
+theorem simple_in_range (arm : KType → Nat → Option (BitVec 64)) (c : Cfg) (hc : Proved c) (hit : Bool) (n : Nat)
     (h1 : 1 ≤ n) (h2 : n ≤ M64) (k : Key) (hh : k.hash < 2 ^ 64) :
-    ∀ i, simpleIndex arm c n k = .idx i → i < n := by
+    ∀ i, simpleIndex arm c hit n k = .idx i → i < n := by
   intro i h
   simp only [simpleIndex] at h
   split at h
@@ -91,35 +92,41 @@ theorem simple_in_range (arm : KType → Nat → Option (BitVec 64)) (c : Cfg) (
     · cases h; exact search_in_range c hc n _ h1 h2 hh
     · cases h
 
-theorem xhash_in_range (c : Cfg) (hc : Proved c) (n : Nat) (h1 : 1 ≤ n) (h2 : n ≤ M64) (k : Key)
-    (hh : k.hash < 2 ^ 64) : ∀ i, xhashIndex c n k = .idx i → i < n := by
+theorem xhash_in_range (c : Cfg) (hc : Proved c) (hit : Bool) (n : Nat) (h1 : 1 ≤ n) (h2 : n ≤ M64) (k : Key)
+    (hh : k.hash < 2 ^ 64) : ∀ i, xhashIndex c hit n k = .idx i → i < n := by
   intro i h
   simp only [xhashIndex] at h
   split at h
   · cases h; exact search_in_range c hc n _ h1 h2 hh
   · cases h
 
-/-- every supported key gets an index (no panic): integer and HitGroup keys under `SimpleIndex`, every key
-type of `ToBytes` under both routes -/
-theorem route_total (arm : KType → Nat → Option (BitVec 64)) (c : Cfg) (n : Nat) (k : Key)
-    (hs : k.hashable = true ∨ (arm k.ty k.bits).isSome = true) : ∃ i, simpleIndex arm c n k = .idx i := by
+/-- every supported key gets an index under BOTH routes (no panic) — every key type of the property's quantifier:
+all integer widths, strings, byte slices, `Bs` and `HitGroup` implementers — provided `ToBytes` has its `HitGroup` arm
+(`hit = true`; regenerated, obligation `tie_hitgroup_hashable`). `arm` only needs to cover nothing: keys without an arm go
+through their hash. -/
+theorem route_total (arm : KType → Nat → Option (BitVec 64)) (c : Cfg) (n : Nat) (k : Key) (hk : k.ty ≠ .other) :
+    (∃ i, simpleIndex arm c true n k = .idx i) ∧ (∃ i, xhashIndex c true n k = .idx i) := by
+  have hh : k.hashable true = true := by
+    cases hty : k.ty <;> simp_all [Key.hashable, toBytesArmsExpected]
+  have hx : xhashIndex c true n k = .idx (searchIndex c n k.hash) := by simp [xhashIndex, hh]
+  refine ⟨?_, ⟨_, hx⟩⟩
   simp only [simpleIndex]
-  cases ha : arm k.ty k.bits with
+  cases arm k.ty k.bits with
   | some it => exact ⟨_, rfl⟩
-  | none =>
-    rcases hs with hs | hs
-    · exact ⟨searchIndex c n k.hash, by simp [xhashIndex, hs]⟩
-    · simp [ha] at hs
+  | none => exact ⟨_, hx⟩
 
 /-- the index is a function of the key's type, value and hash only (and of `n`): no hidden state -/
 theorem route_deterministic (arm : KType → Nat → Option (BitVec 64)) (c : Cfg) (n : Nat) (k k' : Key)
     (hty : k.ty = k'.ty) (hb : k.bits = k'.bits) (hh : k.hash = k'.hash) :
-    simpleIndex arm c n k = simpleIndex arm c n k' ∧ xhashIndex c n k = xhashIndex c n k' := by
+    ∀ hit, simpleIndex arm c hit n k = simpleIndex arm c hit n k' ∧ xhashIndex c hit n k = xhashIndex c hit n k' := by
+  intro hit
   simp [simpleIndex, xhashIndex, Key.hashable, hty, hb, hh]
 
-/-- a HitGroup implementer has no arm in `ToBytes`: under xxhash routing the code panics on it (modelled as coded) -/
+/-- TODAY's `ToBytes` has no `HitGroup` arm (`hit = false`): under xxhash routing a key type that implements only
+`HitGroup` panics `unsupported.type.for.slot` although the property's quantifier lists it — the property is false of that
+source (monitor key `C17:XHashIndex:HitGroup-key-unsupported`, script `remap 3` / `xhash hit:5:0`). -/
 theorem witness_hitgroup_unsupported_under_xhash (c : Cfg) (n h v : Nat) :
-    xhashIndex c n ⟨.hit, v, "", h⟩ = .panic := rfl
+    xhashIndex c false n ⟨.hit, v, "", h⟩ = .panic := rfl
 
 /-! ### sharded containers -/
 
@@ -160,6 +167,38 @@ theorem wlru_is_product_of_shards (c : Nv.C04.Cfg) (kd : Nv.C04.Kind) (idx : Nat
 example : outs (shardedStep mapKeyed (fun k => k.bits % 3)) (fun _ => [])
     [(⟨.i8, 255, "", 0⟩, .set 1), (⟨.i16, 65535, "", 0⟩, .set 2), (⟨.i8, 255, "", 0⟩, .get), (⟨.u8, 255, "", 0⟩, .exist)] =
     [.unit, .unit, .val (some 1), .bool false] := by decide
+
+/-! ### key-locker groups and semaphore maps
+
+Reference: `LockSt` — ONE table of holders with all-or-nothing admission (`acquire`), `release`, and the wake-up of the
+blocked caller. A group keeps the holders of `k` in shard `idx k` (`ShLockSt`) and visits the keys of a multi-key call in
+`shardOrder`. Per-key reader/writer semantics of the real lockers is C01/C02's subject; the hypothesis here is exactly
+what they establish: a shard's answer for `k` depends on the entries of `k` only. -/
+
+/-- For ANY routing function the sharded table answers every script — Lock/RLock/Locks/RLocks and their releases, in any
+mix, through any API on the same key, legal or not — exactly as the single table: same grants, same blocked calls, same
+wake-ups, same refusals. (Shard counts, primes, modulo or xxhash routing are all instances of `idx`.) -/
+theorem sharded_locks_equiv (idx : Key → Nat) (reqs : List LReq) :
+    outs (shLockStep idx) ShLockSt.empty reqs = outs lockStep LockSt.empty reqs :=
+  (Nv.C04.sim_outs (shLockStep idx) lockStep
+    (fun s l => Rel idx s.shards l.holds ∧ s.waiter = l.waiter) (fun _ => True)
+    (fun s l req hr _ => lock_step_sim idx s l hr.1 hr.2 req)
+    reqs ShLockSt.empty LockSt.empty
+    ⟨⟨fun h => by simp [ShLockSt.empty, LockSt.empty], fun i h hh => by simp [ShLockSt.empty] at hh⟩, rfl⟩
+    (fun _ _ => trivial)).1
+
+/-- the keys of a multi-key call are visited in ascending shard order, each exactly as often as it was given: two
+callers never take two shards in opposite orders (the ordering argument against deadlock between shards; inside one
+shard the caller's order is kept, as in the unsharded locker) -/
+theorem lock_order_ascending (idx : Key → Nat) (keys : List Key) :
+    AscendingBy idx (shardOrder idx keys) ∧ ∀ k, k ∈ shardOrder idx keys ↔ k ∈ keys :=
+  ⟨shardOrder_ascending idx keys, fun k => mem_shardOrder idx k keys⟩
+
+/-- a concrete script: Locks([k]) through the multi-key API, then Lock(k) from another thread blocks, Unlock(k) through the
+single-key API releases it and wakes the waiter -/
+example : outs (shLockStep (fun k => k.bits % 3)) ShLockSt.empty
+    [.acq 0 [⟨.i64, 5, "", 0⟩] true, .acq 1 [⟨.i64, 5, "", 0⟩] true, .rel 0 [⟨.i64, 5, "", 0⟩] true, .rel 2 [⟨.i64, 5, "", 0⟩] true] =
+    [.granted, .parked, .released (some 1), .illegal] := by decide
 
 /-! ### what the unproved configurations do -/
 
